@@ -444,13 +444,16 @@ impl IoLoop {
                 }
             }
             HEARTBEAT => self.inner.process_heartbeat_timers()?,
+            // The three channel-0 sources below belong to the Steady state. A wake-up for one of
+            // them can still be pending in the same batch of events in which we saw the server's
+            // close (or hit a client exception) and dropped the slot; like a wake-up for any other
+            // dropped channel (see handle_channel_readable) it is stale and ignored: the dropped
+            // slot already propagates the error to the client handle.
             SET_BLOCKED_TX => match state {
                 ConnectionState::Steady(ch0_slot) => self.handle_set_blocked_tx(ch0_slot)?,
                 ConnectionState::ServerClosing(_)
                 | ConnectionState::ClientException
-                | ConnectionState::ClientClosed => {
-                    unreachable!("ch0 slot cannot be readable after it is dropped")
-                }
+                | ConnectionState::ClientClosed => {}
             },
             ALLOC_CHANNEL => match &state {
                 ConnectionState::Steady(ch0_slot) => {
@@ -458,9 +461,7 @@ impl IoLoop {
                 }
                 ConnectionState::ServerClosing(_)
                 | ConnectionState::ClientException
-                | ConnectionState::ClientClosed => {
-                    unreachable!("ch0 slot cannot be readable after it is dropped")
-                }
+                | ConnectionState::ClientClosed => {}
             },
             Token(0) => match &state {
                 ConnectionState::Steady(ch0_slot) => {
@@ -468,9 +469,7 @@ impl IoLoop {
                 }
                 ConnectionState::ServerClosing(_)
                 | ConnectionState::ClientException
-                | ConnectionState::ClientClosed => {
-                    unreachable!("ch0 slot cannot be readable after it is dropped")
-                }
+                | ConnectionState::ClientClosed => {}
             },
             Token(n) if n <= u16::max_value() as usize => {
                 self.inner.handle_channel_readable(n as u16)?
